@@ -22,15 +22,36 @@ def dispatch_arms(repo: Repo) -> List[Tuple[str, ast.If]]:
             chain = n
     if chain is None:
         raise AnalysisError("evaluate_cfi_directives: dispatch chain not found")
-    arms = []
-    st: Optional[ast.stmt] = chain
-    while isinstance(st, ast.If):
-        arms.append((src(st.test), st))
-        if len(st.orelse) == 1 and isinstance(st.orelse[0], ast.If):
-            st = st.orelse[0]
-        else:
-            arms.append(("<else>", st))
-            st = None
+    # Arms of the dispatch, independent of how it is spelled: `if A: .. elif B: .. else: ..`, or
+    # (after an arm that ends in raise/continue/return) the statements that follow the if.
+    arms: List[Tuple[str, ast.If]] = []
+
+    def parent_list(node):
+        for p in ast.walk(fi.node):
+            for f in ("body", "orelse", "finalbody"):
+                b = getattr(p, f, None)
+                if isinstance(b, list) and any(x is node for x in b):
+                    return b
+        return None
+
+    def walk_list(stmts):
+        for i, st in enumerate(stmts):
+            if not isinstance(st, ast.If):
+                if arms:
+                    last = ast.If(test=ast.Constant(True), body=list(stmts[i:]), orelse=list(stmts[i:]))
+                    ast.copy_location(last, st)
+                    arms.append(("<else>", last))
+                return
+            arms.append((src(st.test), st))
+            if st.orelse:
+                walk_list(st.orelse)
+                return
+            if not (st.body and isinstance(st.body[-1], (ast.Raise, ast.Continue, ast.Return, ast.Break))):
+                return
+        return
+
+    lst = parent_list(chain)
+    walk_list(lst[lst.index(chain):] if lst is not None else [chain])
     return arms
 
 
